@@ -39,6 +39,18 @@ def flatten(node):
     return [node]
 
 
+def tuple_inside_plus(node) -> bool:
+    """the two documented glue shapes are a '+' chain of str-valued pieces and a tuple of parts (prefix@(..)suffix);
+    a Tuple or Starred as an operand of '+' is neither (and cannot be evaluated)"""
+    if isinstance(node, ast.BinOp) and isinstance(node.op, ast.Add):
+        for side in (node.left, node.right):
+            if isinstance(side, (ast.Tuple, ast.Starred)) or tuple_inside_plus(side):
+                return True
+    if isinstance(node, ast.Tuple):
+        return any(tuple_inside_plus(e) for e in node.elts)
+    return False
+
+
 def is_xonsh_call(node, name):
     return (
         isinstance(node, ast.Call)
@@ -84,6 +96,9 @@ def check_args(cmd, call, path="") -> tuple[str, dict] | None:
         return ("argument-count", {"at": path, "expected": len(cmd.words), "got": len(call.args), "expected_words": ["".join(p[1] for p in w) for w in cmd.words], "got_args": [ast.unparse(a)[:60] for a in call.args]})
     for i, (word, arg) in enumerate(zip(cmd.words, call.args)):
         exp = expected_pieces(word)
+        bad_glue = tuple_inside_plus(arg)
+        if bad_glue:
+            return ("glue-shape:tuple-or-starred-as-operand-of-plus", {"at": f"{path}arg{i}", "got": ast.unparse(arg)[:120]})
         got = merge_constants(flatten(arg))
         here = f"{path}arg{i}"
         if len(exp) == 1 and exp[0][0] == "const":
@@ -166,7 +181,7 @@ def check(rec, case):
 
 def search(rec, ctx):
     def gen(rnd):
-        cmd = xonsh.gen_cmd(rnd, newline_ws=ctx.thorough and rnd.random() < 0.2)
+        cmd = xonsh.gen_cmd(rnd, newline_ws=rnd.random() < (0.3 if ctx.thorough else 0.2))
         check(rec, {"cmd": to_json(cmd), "stream": "model"})
 
     drive(st.randoms(use_true_random=False), gen, ctx.budget(24000, 300000), ctx.hseed("model"))
